@@ -5,6 +5,7 @@ import (
 	"go/token"
 	"go/types"
 	"math/big"
+	"strings"
 
 	"golang.org/x/tools/go/ssa"
 )
@@ -62,6 +63,12 @@ func (ex *Exec) step(st *State, fr *Frame, in ssa.Instruction) (forks []*State, 
 			_ = id
 		}
 		if obj := x.Object(); obj != nil {
+			if prev, ok := fr.env[obj.Name()]; ok && prev.isAddr && !x.IsAddr {
+				if _, isConst := x.X.(*ssa.Const); isConst {
+					// `var v T = <constant>` of an address-taken local: keep the cell, not the initial value
+					return nil, false
+				}
+			}
 			fr.env[obj.Name()] = envEntry{x.X, x.IsAddr}
 		}
 		return nil, false
@@ -75,6 +82,13 @@ func (ex *Exec) step(st *State, fr *Frame, in ssa.Instruction) (forks []*State, 
 		ex.store(st, r, w.Zero(et), et)
 		ex.initLocks(st, r, et, 0)
 		fr.regs[x] = r
+		// a named local is visible to loop invariants from its declaration on (its first
+		// DebugRef may only come later, inside the loop body)
+		if c := x.Comment; c != "" && c != "complit" && c != "new" && c != "varargs" && !strings.ContainsAny(c, " .()[]") {
+			if _, seen := fr.env[c]; !seen {
+				fr.env[c] = envEntry{x, true}
+			}
+		}
 		return nil, false
 
 	case *ssa.Phi:
